@@ -34,6 +34,9 @@ C["C05"] = dict(
 C["C06"] = dict(
   text="Lean 4 theorems over a model of Walker/SortSpec/FilePath ordering, for every tree, flag set, glob list (matching function arbitrary) and sort specification: the listed files are exactly (as a multiset) the enumerated regular files passing the glob and junk filters; the list is sorted by the --sort-by keys in order with ties broken by ascending component-wise path (transitivity/totality via lawful comparator instances); the result is identical for any permutation of the enumeration (order independence); last matching glob decides, unmatched paths take the opposite polarity of the first glob; without --include-hidden no listed path has a dot-component below the root; symlinks contribute nothing unless followed; a symlink root is refused iff not following; the junk list extracted from the source is the documented one. Correspondence: sandbox trees built in shuffled creation order, all 8 flag combinations, globs and sort specs; three-way agreement impl / model / harness's own rules.",
   note="Trusted: Lean kernel; ignore/globset modelled on a sub-language; sampled differential check.")
+C["C17"] = dict(
+  text="Lean 4 theorems over a model of HostPort parse/print/pair encoding, parametric in the host parser and printers: for every host and port < 65536 the printed form parses back to the identical value (display_parse; the separator is the last colon whatever colons the host contains), parse-print-parse is stable, re-reading the stored [host, port] pair yields the identical value given the host text round-trips, and missing ports, empty or non-digit ports, ports >= 65536 and hosts the host parser rejects (empty, forbidden characters, unbracketed IPv6 - proved for the model's concrete parser) are rejected. Correspondence: hook on domains, every WHATWG IPv4 spelling, IPv6 from random groups in every compression/leading-zero/case/dotted-tail spelling, ports with leading zeros, malformed strings; expected normalised forms computed independently by the harness; CLI create --node / show --json / link --peer.",
+  note="Trusted: Lean kernel; url::Host and std Ipv6Addr modelled on a sub-language and validated by the differential check; IDNA out of model.")
 
 
 def main():
